@@ -340,7 +340,7 @@ Lemma handler_ran_false : forall p, ~ In EvHandler (p_trace p) -> handler_ran p 
 Proof. intros p H. destruct (handler_ran p) eqn:E; [|reflexivity]. apply handler_ran_In in E. contradiction. Qed.
 
 (* the unfixed code let a malformed credentials text through: the decoded prefix of "dXNlcjpwYXNz!" is user:pass *)
-Lemma unchecked_admits_malformed :
+Lemma unchecked_accepts_malformed :
   basic_auth_unchecked "user" "pass" "Basic dXNlcjpwYXNz!" = VPass /\
   exact_credentials "user" "pass" "Basic dXNlcjpwYXNz!" = false /\
   basic_auth "user" "pass" "Basic dXNlcjpwYXNz!" = VDenied401.
